@@ -12,7 +12,7 @@
    operators ([table_ok]; any number of levels, any prefix operators, the empty table included), every
    identifier chain, every expression, every fuel - no bound on depth or length. *)
 From P2 Require Import Base.Prelude Lex.Token Syn.Ast Syn.Parse Syn.Render Syn.ParseRel Syn.ParseProofs
-  Syn.ParseSound Syn.ParseTotal Syn.ParseCor Syn.Full Syn.FullProofs Syn.TextToAst.
+  Syn.ParseSound Syn.ParseTotal Syn.ParseCor Syn.Full Syn.FullProofs Syn.FullSound Syn.TextToAst.
 From P2 Require Lex.Tok Lex.TokProofs.
 
 (* completeness: every well-formed rendering is parsed, as a whole, to exactly the tree it denotes
@@ -72,6 +72,19 @@ Proof. exact (fun cfg ids H => reject_unbalanced cfg ids H). Qed.
 Theorem C03_parse_complete_full : forall cfg, table_ok cfg = true ->
   forall ids r e u, fwf cfg r = true -> ferase cfg ids r = Some (e, u) -> parse cfg ids (fflatten cfg r) = POk e.
 Proof. exact parse_complete_full. Qed.
+
+(* soundness for the full grammar: whatever Parser.Parse accepts (tokens as the tokenizer writes them: [full_toks])
+   is, token for token, a well-formed rendering of the annotated AST it returns - no truncation, no regrouping, and
+   the annotations (constant propagation, OuterIdents, Recursive, ThisName) are the ones the scope stack demands;
+   [frenders cfg ids e ts] := some well-formed tree r with ferase ids r = (e, _) flattens to ts *)
+Theorem C03_parse_sound_full : forall cfg, table_ok cfg = true ->
+  forall f ids ts e, full_toks ts = true -> parse_fuel cfg f ids ts = POk e -> frenders cfg ids e ts.
+Proof. exact parse_sound_full. Qed.
+
+(* both directions: the parser accepts exactly the renderings, and returns exactly the AST they denote *)
+Theorem C03_parse_iff_renders : forall cfg, table_ok cfg = true -> forall ids ts e, full_toks ts = true ->
+  (parse cfg ids ts = POk e <-> frenders cfg ids e ts).
+Proof. exact parse_iff_renders. Qed.
 
 (* TEXT to AST (composition with the tokenizer model of C15): for every well-formed layout - the lexemes separated by
    arbitrary runs of blanks, tabs, CR, LF, line and block comments (Lex/TokProofs.wf_layout) - whose lexemes denote the
@@ -205,6 +218,8 @@ Print Assumptions C03_pp_full_roundtrip.
 Print Assumptions C03_reject_nonrendering.
 Print Assumptions C03_reject_unbalanced.
 Print Assumptions C03_parse_complete_full.
+Print Assumptions C03_parse_sound_full.
+Print Assumptions C03_parse_iff_renders.
 Print Assumptions C03_text_to_ast.
 Print Assumptions C03_text_layout_irrelevant.
 Print Assumptions C03_parse_no_panic.
